@@ -52,6 +52,18 @@ namespace occa {
 
     primitive binaryOpNode::evaluate() const {
       primitive pLeft  = leftValue->evaluate();
+      // && and || do not evaluate their right operand
+      //   once the left operand decides the result
+      if ((op.opType & (operatorType::and_ | operatorType::or_)) &&
+          (pLeft.isBool() || pLeft.isInteger() || pLeft.isFloat())) {
+        const bool leftIsTrue = pLeft.to<bool>();
+        if ((op.opType & operatorType::and_) && !leftIsTrue) {
+          return primitive(false);
+        }
+        if ((op.opType & operatorType::or_) && leftIsTrue) {
+          return primitive(true);
+        }
+      }
       primitive pRight = rightValue->evaluate();
       return ((binaryOperator_t&) op)(pLeft, pRight);
     }
